@@ -930,6 +930,12 @@ def run_c14(ctx):
         t2 = gen.relayout(text, rng)
         if t2 is not None and rng.random() < 0.5:
             wf.append(ctx.case("relayout", t2, gen.DEFAULT_CFG))
+    # every token after a conditional block is at a pass position that differs from its global position: parents
+    # (line index, GLOBAL token index) computed in a pass must not confuse the two
+    DIR_PREFIXES = ["{$IFDEF A}{$DEFINE B}{$ELSE}{$DEFINE C}{$ENDIF}\n", "{$IFDEF A}\n{$DEFINE B}\n{$ENDIF}\n",
+                    "{$IF X}{$R a.res}{$ELSEIF Y}{$R b.res}{$R c.res}{$ELSE}{$R d.res}{$IFEND}\n"]
+    for text, kind, wrap in wellformed_texts(ctx, ctx.n(150, 3000))[:: ctx.n(2, 1)]:
+        wf.append(ctx.case(kind + "-after-directives", rng.choice(DIR_PREFIXES) + text, gen.DEFAULT_CFG))
     wf += witness_cases(ctx, "C14")
     ctx.run_stream(wf, units=["passes", "kernel", "linescover", "parents", "eofline", "consolidators"])
     inv = []
